@@ -61,8 +61,9 @@ func (d *Driver) sample() {
 			if j08 && d.nParked == 0 && in.inStopCall == 0 && in.apiBusy == 0 && !in.cfg.NoCallbacks && !o.failedStop {
 				// nothing of the library is between a flag change and its callback: the claim
 				// equals "promotions outnumber demotions by one"
-				if isL != (o.promotes-o.demotes == 1) {
-					d.h.violate("C08", fmt.Sprintf("claim-differs-from-callback-balance/leader=%v", isL), fmt.Sprintf("i%d.%d IsLeader()=%v with %d promotions and %d demotions", in.idx, o.gen, isL, o.promotes, o.demotes), now, d.step)
+				// (falling edges before OnDemote was registered count as heard: no callback is due)
+				if isL != (o.promotes-o.demotes-o.unheardFalls == 1) {
+					d.h.violate("C08", fmt.Sprintf("claim-differs-from-callback-balance/leader=%v", isL), fmt.Sprintf("i%d.%d IsLeader()=%v with %d promotions and %d demotions (%d losses of leadership before OnDemote was registered)", in.idx, o.gen, isL, o.promotes, o.demotes, o.unheardFalls), now, d.step)
 				}
 			}
 			if !j18 && !j05 {
@@ -358,8 +359,22 @@ func (d *Driver) judgeC08() {
 		// one" whenever nothing of the instance is in motion is checked at the quiescent points,
 		// see sample().)
 		var rises, falls []*ClaimEvt
-		nP, nD := 0, 0
+		// per fall: "due" (OnDemote was registered before the claim fell: the callback must run),
+		// "optional" (it was registered later: the library reads the callback field after the
+		// claim has fallen, so the callback may or may not run), "none" (never registered)
+		var state []string
+		matched := map[int]bool{}
+		regLater := o.demoteReg // registered at some point of the run
+		nP := 0
 		leading := false
+		firstPending := func(kind string) int {
+			for i, st := range state {
+				if st == kind && !matched[i] {
+					return i
+				}
+			}
+			return -1
+		}
 		for _, it := range items {
 			switch it.kind {
 			case "rise":
@@ -368,6 +383,14 @@ func (d *Driver) judgeC08() {
 			case "fall":
 				falls = append(falls, it.c)
 				leading = false
+				switch {
+				case d.expectsOnDemote(k[0], k[1], it.c.Step):
+					state = append(state, "due")
+				case regLater:
+					state = append(state, "optional")
+				default:
+					state = append(state, "none")
+				}
 			case "promote":
 				if nP >= len(rises) {
 					d.h.violate("C08", "extra-onpromote", fmt.Sprintf("i%d.%d OnPromote at %v without a new term", k[0], k[1], it.cb.T), it.cb.T, it.cb.Step)
@@ -377,16 +400,26 @@ func (d *Driver) judgeC08() {
 				if tok := rises[nP-1].Token; it.cb.Token != tok {
 					d.h.violate("C08", "onpromote-wrong-token", fmt.Sprintf("i%d.%d OnPromote(%s) for term token %s", k[0], k[1], short(it.cb.Token), short(tok)), it.cb.T, it.cb.Step)
 				}
-				if nD < nP-1 {
-					// OnPromote of term i+1 entered before OnDemote of term i
-					lf := falls[nD]
+				// OnPromote of term i+1 entered before OnDemote of term i (i = nP-1)?
+				if i := firstPending("due"); i >= 0 && i < nP-1 {
+					lf := falls[i]
 					if !d.stopFailed(lf, o) {
 						d.h.violate("C08", "missing-ondemote/fall-by:"+lf.Stack, fmt.Sprintf("i%d.%d stopped being leader at %v (%s) and OnDemote had not run when OnPromote of its next term ran at %v", k[0], k[1], lf.T, lf.Stack, it.cb.T), lf.T, lf.Step)
 					}
-					nD = nP - 1
+					matched[i] = true
+				}
+				// an optional callback that has not come by now will not be matched any more
+				for i := 0; i < nP-1 && i < len(state); i++ {
+					if state[i] == "optional" {
+						matched[i] = true
+					}
 				}
 			case "demote":
-				if nD >= len(falls) {
+				i := firstPending("due")
+				if j := firstPending("optional"); j >= 0 && (i < 0 || j < i) {
+					i = j
+				}
+				if i < 0 {
 					why := "not-leader-before"
 					if leading {
 						why = "while-still-leader"
@@ -394,11 +427,11 @@ func (d *Driver) judgeC08() {
 					d.h.violate("C08", "extra-ondemote/"+why+"/by:"+it.cb.Token, fmt.Sprintf("i%d.%d OnDemote at %v (called from %s) without a matching loss of leadership", k[0], k[1], it.cb.T, it.cb.Token), it.cb.T, it.cb.Step)
 					continue
 				}
-				nD++
-				lf := falls[nD-1]
-				if nP < nD {
-					d.h.violate("C08", "ondemote-before-onpromote/by:"+it.cb.Token, fmt.Sprintf("i%d.%d OnDemote of term %d at %v before the term's OnPromote", k[0], k[1], nD, it.cb.T), it.cb.T, it.cb.Step)
-					nP = nD
+				matched[i] = true
+				lf := falls[i]
+				if nP < i+1 {
+					d.h.violate("C08", "ondemote-before-onpromote/by:"+it.cb.Token, fmt.Sprintf("i%d.%d OnDemote of term %d at %v before the term's OnPromote", k[0], k[1], i+1, it.cb.T), it.cb.T, it.cb.Step)
+					nP = i + 1
 				}
 				// promptness: outside stop calls the callback must run by the next quiescent point
 				// (same virtual instant: a goroutine preempted between clearing the claim and calling
@@ -408,8 +441,8 @@ func (d *Driver) judgeC08() {
 				}
 			}
 		}
-		for i := nD; i < len(falls); i++ {
-			if lf := falls[i]; lf.Step < d.endStep && !d.stopFailed(lf, o) {
+		for i, lf := range falls {
+			if state[i] == "due" && !matched[i] && lf.Step < d.endStep && !d.stopFailed(lf, o) {
 				d.h.violate("C08", "missing-ondemote/fall-by:"+lf.Stack, fmt.Sprintf("i%d.%d stopped being leader at %v (%s) and OnDemote never ran", k[0], k[1], lf.T, lf.Stack), lf.T, lf.Step)
 				break
 			}
